@@ -283,8 +283,9 @@ func genC02(c *Ctx) error {
 				case x < 25 && len(reqs) > 0:
 					p := reqs[c.Rng.Intn(len(reqs))]
 					r.Sender, r.Nonce = p.Sender, p.Nonce // replay (possibly through the other route)
-				case x < 30:
-					r.Nonce = vals[9+c.Rng.Intn(2)]
+				case x < 32:
+					// not a 13-digit value: the neighbours of both bounds, zero (also what an absent nonce decodes to), one, the largest values
+					r.Nonce = []uint64{999999999999, 10000000000000, 0, 1, 10000000000001, 1 << 63, ^uint64(0), 0}[c.Rng.Intn(8)]
 				case x < 45:
 					r.Nonce = uint64(int64(B) + int64(len(reqs))*700 - int64(c02TTL) + int64(c.Rng.Intn(3)) - 1)
 				default:
